@@ -57,6 +57,24 @@ inductive Res
   | err
   deriving DecidableEq, Repr
 
+/-- `models.CircuitKey{ChanID, HtlcID}` as one natural: the short channel id in the high part,
+    the uint64 htlc id (a per-channel counter) in the low 64 bits.  Every `key : Nat` of this
+    model is such an encoding of the FULL circuit key (the driver builds it from both components
+    of the trace); the encoding is injective for htlc ids `< 2^64` (`ckey_inj`, Props.lean), so
+    two htlcs that share only the htlc id (different channels) or only the channel are different
+    keys, as in `Invoice.Htlcs map[CircuitKey]*InvoiceHTLC`. -/
+def ckey (chan htlc : Nat) : Nat := chan * 18446744073709551616 + htlc
+
+def ckeyChan (k : Nat) : Nat := k / 18446744073709551616
+
+def ckeyHtlc (k : Nat) : Nat := k % 18446744073709551616
+
+/-- the answers of the AMP notify path that go with a new htlc record (`AddHTLCsUpdate`). -/
+def Res.addsHtlc : Res → Bool
+  | .accept .partialAccepted => true
+  | .settle .settled _ _ => true
+  | _ => false
+
 /-- `InvoiceHTLC`.  `authOk` is a ghost field (not stored by lnd): the value of the
     payment-address test evaluated when the htlc was accepted. -/
 structure Htlc where
@@ -482,10 +500,26 @@ def mkAHtlc (ctx : Ctx) (total : Nat) (auth : Bool) : AHtlc :=
 def adescs (ctx : Ctx) (acc : List AHtlc) : List (Nat × Nat) :=
   (ctx.share, ctx.index) :: acc.map (fun h => (h.share, h.index))
 
+/-- the htlc records of an AMP invoice that are still stored after an `AddHTLCsUpdate` for the set
+    id of `ctx`.  Native SQL store (`drop = false`): all of them.  kv store (`drop = true`): the
+    htlcs of a set id live in one blob per set id, and `kvInvoiceUpdater.UpdateAmpState` starts the
+    rewritten blob according to the set's recorded state — accepted (or new): the set's accepted
+    htlcs; canceled: its accepted and canceled htlcs; settled: nothing — and then adds the htlcs the
+    update touches (the new one and those it settles).  So when a set id whose set is recorded as
+    settled is paid again, the earlier settled (and canceled) htlcs of that set id are no longer
+    stored (finding F-c15-kv-amp-setid-reuse; the model reproduces it). -/
+def akeep (drop : Bool) (ctx : Ctx) (inv : AmpInv) : List AHtlc :=
+  if drop then
+    let st := (inv.sets.find? (fun s => s.id == ctx.setID)).map (·.state)
+    inv.htlcs.filter (fun h => !(h.setID == ctx.setID) || h.base.state == .accepted ||
+      (st == some .canceled && h.base.state == .canceled))
+  else inv.htlcs
+
 /-- the database part of NotifyExitHopHtlc on an AMP invoice (replay check, updateMpp with AMP
-    record incl. reconstruction, addHTLCs / cancelInvoice), with the resolutions to fan out. -/
-def anotify (H : Nat → Nat) (P : List (Nat × Nat) → Nat → Nat → Nat) (ctx : Ctx) (inv : AmpInv) :
-    AmpInv × Res × List (Nat × Res) :=
+    record incl. reconstruction, addHTLCs / cancelInvoice), with the resolutions to fan out.
+    `drop`: kv store, see `akeep`. -/
+def anotify (H : Nat → Nat) (P : List (Nat × Nat) → Nat → Nat → Nat) (drop : Bool) (ctx : Ctx)
+    (inv : AmpInv) : AmpInv × Res × List (Nat × Res) :=
   let view := aview ctx inv
   match areplay H ctx view with
   | some r =>
@@ -518,7 +552,12 @@ def anotify (H : Nat → Nat) (P : List (Nat × Nat) → Nat → Nat → Nat) (c
           else
             let h := mkAHtlc ctx total (decide (addr = inv.payAddr))
             if sumAmt (acc.map (·.base)) + ctx.amt < total then
-              ({ inv with htlcs := inv.htlcs ++ [h], sets := setAccept inv.sets ctx.setID ctx.amt,
+              -- addHTLCs without state change aligns every htlc of the fetched set with the open
+              -- invoice: a settled one is `ErrHTLCAlreadySettled` (transaction rolled back)
+              if view.any (fun g => g.base.state == .settled) then (inv, .err, [])
+              else
+              ({ inv with htlcs := akeep drop ctx inv ++ [h],
+                          sets := setAccept inv.sets ctx.setID ctx.amt,
                           amtPaid := inv.amtPaid + ctx.amt }, .accept .partialAccepted, [])
             else
               let descs := adescs ctx acc
@@ -538,7 +577,7 @@ def anotify (H : Nat → Nat) (P : List (Nat × Nat) → Nat → Nat → Nat) (c
                     { g.withState .settled with pre := some (P descs g.share g.index) }
                   else g
                 let inv' : AmpInv :=
-                  { inv with htlcs := ((inv.htlcs ++ [h]).map settleOne),
+                  { inv with htlcs := ((akeep drop ctx inv ++ [h]).map settleOne),
                              sets := setSettle (setAccept inv.sets ctx.setID ctx.amt) ctx.setID,
                              amtPaid := inv.amtPaid + ctx.amt }
                 let p := P descs ctx.share ctx.index
@@ -748,10 +787,10 @@ def notify (H : Nat → Nat) (P : List (Nat × Nat) → Nat → Nat → Nat) (cf
         match findAmp reg.amps h with
         | none => (reg, ⟨.res (.fail .invoiceNotFound ctx.height), []⟩)
         | some a =>
-          let (a', r, msgs) := anotify H P ctx a
+          let (a', r, msgs) := anotify H P (!cfg.sql) ctx a
           -- the set-id index is global: adding an htlc under a set id that another invoice
           -- already uses fails with ErrDuplicateSetID (→ ResultInvoiceNotFound, rolled back)
-          if a'.htlcs.length ≠ a.htlcs.length ∧
+          if r.addsHtlc ∧
               reg.amps.any (fun b => b.hash != a.hash && b.sets.any (fun x => x.id == ctx.setID)) then
             (reg, ⟨.res (.fail .invoiceNotFound ctx.height), []⟩)
           else
